@@ -118,9 +118,17 @@ func Run[C any](t *testing.T, id string, rec *evid.Rec, gen func(*rapid.T) C, ch
 	curProperty, curTest = id, t.Name()
 	rapid.Check(t, func(rt *rapid.T) {
 		c := gen(rt)
+		// the replay file must hold the case as generated: some checks update the
+		// model inside the case while they run (metamorphic steps), so it is
+		// serialized before the check sees it
+		asGenerated, merr := json.Marshal(c)
 		vs := safeCheck(c, rec, check)
 		if bad := filter(id, rec, vs); len(bad) > 0 {
-			writeFail(id, t.Name(), c, bad)
+			if merr == nil {
+				writeFail(id, t.Name(), json.RawMessage(asGenerated), bad)
+			} else {
+				writeFail(id, t.Name(), c, bad)
+			}
 			rt.Fatalf("property %s violated: %s: %s", id, bad[0].Key, bad[0].Msg)
 		}
 	})
@@ -280,9 +288,14 @@ func Enumerate[C any](t *testing.T, id string, rec *evid.Rec, cases []C, check f
 			continue
 		}
 		n++
+		asGenerated, merr := json.Marshal(c)
 		vs := safeCheck(c, rec, check)
 		if bad := filter(id, rec, vs); len(bad) > 0 {
-			writeFail(id, t.Name(), c, bad)
+			if merr == nil {
+				writeFail(id, t.Name(), json.RawMessage(asGenerated), bad)
+			} else {
+				writeFail(id, t.Name(), c, bad)
+			}
 			t.Fatalf("property %s violated: %s: %s", id, bad[0].Key, bad[0].Msg)
 		}
 	}
